@@ -17,6 +17,7 @@ from typing import Any, Dict, List
 import z3
 
 from hv import core, extract, framevc as fv, pyvc
+from hv import history
 from hv.driver import Bounded, Spec
 from hv.pyvc import to_z3
 
@@ -479,7 +480,7 @@ SPEC = Spec(
     prop=PROP, level="other",
     functions=[(TR, "Trace.convert_time_series_to_events"), (ST, "TraceSymbolTable.get_runtime_launch_events_query"), (TC, "TraceCounters._get_queue_length_time_series_for_rank"),
                (TC, "TraceCounters._get_memory_bw_time_series_for_rank"), (TA, "TraceAnalysis.generate_trace_with_counters")],
-    units=units, bounded=[Bounded("series_vs_step_functions", bounded)],
+    units=units, bounded=[Bounded("series_vs_step_functions", bounded), Bounded("history_independence", history.stage(PROP, "queue", "gen")), Bounded("history_independence_membw", history.stage(PROP, "membw", "gen"))],
     trusted=["pandas contracts used by the row-local part (rename, column assignment, apply, to_dict('records'))", "float bandwidth sums treated as exact up to 1e-6"],
     explanation="Proved (z3 from the AST): counter events = series rows at ts + min_ts with {counter: value} / ph 'C' / pid / id / name; the launch query selects exactly the "
                 "eleven launch names with a positive link. Bounded (real code vs. step-function oracles, never counted as proved): both series as prefix sums per stream / copy "
